@@ -296,6 +296,21 @@ class MultiKeyLookup:
             obj_ref.index_dict.rm_key(obj_ref.key, obj)
         del self._object_ids[id(obj)]
 
+    def _update_indices(self, obj: Any):
+        """Index obj again according to its current values; if that is rejected, keep the old index entries."""
+        old_refs = list(self._object_ids.get(id(obj), []))
+        self._rm_indices(obj)
+        try:
+            self._mk_indices(obj)
+        except Exception:
+            # e.g. the new value of a unique key already exists: the object stays in the table, so it must stay
+            # findable (and removable) under the keys it was indexed with before
+            self._object_ids.pop(id(obj), None)
+            for obj_ref in old_refs:
+                obj_ref.index_dict.setdefault(obj_ref.key, []).append(obj)
+            self._object_ids[id(obj)].extend(old_refs)
+            raise
+
     def remove_object(self, obj: Any):
         """Remove object from table.
 
@@ -345,16 +360,14 @@ class MultiKeyLookup:
             msg = f'object {obj} not known'
             raise ValueError(msg)
         with self._lock:
-            self._rm_indices(obj)
-            self._mk_indices(obj)
+            self._update_indices(obj)
 
     def update_object_no_lock(self, obj: Any):
         """Update indices according to current values in obj without using lock."""
         if obj not in self._objects:
             msg = f'object {obj} not known'
             raise ValueError(msg)
-        self._rm_indices(obj)
-        self._mk_indices(obj)
+        self._update_indices(obj)
 
     def update_objects(self, objs: list[Any]):
         """Update indices according to current values in objs."""
@@ -368,8 +381,7 @@ class MultiKeyLookup:
                 msg = f'object {obj} not known'
                 raise ValueError(msg)
             with self._lock:
-                self._rm_indices(obj)
-                self._mk_indices(obj)
+                self._update_indices(obj)
 
     def clear(self):
         """Remove all objects from table."""
